@@ -26,6 +26,9 @@ fn main() {
     let seed: u64 = args.get(3).and_then(|s| s.parse().ok()).unwrap_or(20260929);
     let mut ctx = Ctx { rng: Rng::new(seed), drv: driver::Driver::spawn(), rep: Report::default(), thorough, seed };
     let t0 = std::time::Instant::now();
+    if prop.starts_with('C') {
+        corpus::run_corpus(&mut ctx, &prop);
+    }
     match prop.as_str() {
         "selftest" => props_direct::selftest(&mut ctx),
         "C01" => props_validate::c01(&mut ctx),
